@@ -179,6 +179,16 @@ class Interp(Engine):
             if f is not None:
                 return f(self, st, a, b)
             return a.term == b.term
+        if isinstance(ka, KList) and isinstance(kb, KList) and ka.elem == kb.elem and ka.elem in (KInt, KFloat, KStr, KBool):
+            # list == list of scalars: same length and pointwise == (CPython short-cuts on identical element objects,
+            # which differs for NaN entries only: not modelled)
+            from . import lib
+            lib.USED.add("list==list(scalars)")
+            n = self.list_len(st, a)
+            i = z3.Int("leq_i")
+            x, y = self.list_get(st, a, i), self.list_get(st, b, i)
+            return z3.And(a.term != 0, b.term != 0, n == self.list_len(st, b),
+                          qforall([i], z3.Implies(z3.And(0 <= i, i < n), self.eq(st, x, y, node)), patterns=[x.term, y.term]))
         if is_refkind(ka) and is_refkind(kb):
             if ka == kb:
                 f = self.reg.specfuncs.get("__eq__:" + ka.name)
@@ -261,6 +271,11 @@ class Interp(Engine):
             return a.term == b.term
         if isinstance(a.kind, KEnum) or isinstance(b.kind, KEnum):
             return self.eq(st, a, b)
+        if self.spec_mode and isinstance(a.kind, KOpt) != isinstance(b.kind, KOpt):
+            # spec-level identity between T and T | None: the optional one is a value structurally equal to the other
+            o, p_ = (a, b) if isinstance(a.kind, KOpt) else (b, a)
+            if o.kind.inner == p_.kind:
+                return o.term == self.coerce(st, p_, o.kind).term
         raise Unsupported("is on %s / %s" % (a.kind, b.kind))
 
     def contains(self, st, cont: SV, x: SV, node=None):
@@ -1017,8 +1032,12 @@ class Interp(Engine):
             return self.eval(st, s.value) if s.value is not None else NONE
         if isinstance(s, ast.If):
             c = self.truth(st, self.eval(st, s.test))
+            fr = self.frame(st)
+            env0 = dict(fr.env)           # each branch starts from the environment before the `if`
             a = self.spec_block(st, s.body + body[1:]) if not _ends_in_return(s.body) else self.spec_block(st, s.body)
+            fr.env = dict(env0)
             b = self.spec_block(st, (s.orelse or []) + body[1:])
+            fr.env = env0
             a, b = self.unify(st, a, b)
             if a.kind is KNone:
                 return a
